@@ -57,8 +57,11 @@ Cl_PartialPressure == (E.ev = "PP") =>
 CondX(pp, gi) == LET xm == FMax(FMin(E.x, E.x2), Lit("1e-300"))
                      lg == IF FLt(Lit("0.0"), gi) /\ FIsFinite(gi) THEN FAbs(FLog(gi)) ELSE Lit("0.0")
                  IN FMul(pp, FAdd(Lit("1.0"), FDiv(FMul(Lit("1e-3"), FAdd(Lit("1.0"), lg)), xm)))
-Cl_BasisIndependent == (E.ev = "PP" /\ FIsFinite(E.p_x[1]) /\ FIsFinite(E.p_x[2])) =>
-                          EqX(E.p_w[1], E.p_x[1], CondX(E.p_x[1], E.g[1])) /\ EqX(E.p_w[2], E.p_x[2], CondX(E.p_x[2], E.g[2]))
+Cl_BasisIndependent == /\ ((E.ev = "PP" /\ FIsFinite(E.p_x[1]) /\ FIsFinite(E.p_x[2])) =>
+                             EqX(E.p_w[1], E.p_x[1], CondX(E.p_x[1], E.g[1])) /\ EqX(E.p_w[2], E.p_x[2], CondX(E.p_x[2], E.g[2])))
+                       \* ... and so are the activity coefficients themselves (the public function takes either basis)
+                       /\ ((E.ev = "PP" /\ FIsFinite(E.g[1]) /\ FIsFinite(E.g[2])) =>
+                             EqX(E.g_w[1], E.g[1], CondX(E.g[1], E.g[1])) /\ EqX(E.g_w[2], E.g[2], CondX(E.g[2], E.g[2])))
 
 Ref_Gamma == (E.ev = "GD") => (MatchesVariant(E.model) \/ D3_Applies)
 =============================================================================
